@@ -72,6 +72,9 @@ func (vc *VC) scriptMode2(o *Oblig, prelude string, axioms []string, wantModel b
 		body.WriteString("(assert " + a + ")\n")
 	}
 	for _, a := range axioms {
+		if tags, ok := vc.axiomTags[a]; ok && o.Kind != "canary" && !hasProp(o.Props, "*") && !scopedVisible(o, tags) {
+			continue // a definition marked scoped is given only to the obligations of its property / group
+		}
 		emit(a)
 	}
 	for _, a := range vc.rootAssum {
@@ -87,24 +90,7 @@ func (vc *VC) scriptMode2(o *Oblig, prelude string, axioms []string, wantModel b
 		kept := vis[:0]
 		for i, a := range vc.assum[:o.nAssum] {
 			if tags, ok := vc.assumTags[i]; ok {
-				// visible iff the obligation serves one of the fact's properties and, when the fact names groups
-				// (grp=<name>: a finer partition inside one property), belongs to one of them
-				shared, hasGrp, grpShared := false, false, false
-				for _, t := range tags {
-					if strings.HasPrefix(t, "grp=") {
-						hasGrp = true
-						for _, q := range o.Props {
-							if q == t {
-								grpShared = true
-							}
-						}
-						continue
-					}
-					if !pseudoTag[t] && hasProp(o.Props, t) {
-						shared = true
-					}
-				}
-				if !shared || (hasGrp && !grpShared) {
+				if !scopedVisible(o, tags) {
 					continue
 				}
 			}
@@ -556,4 +542,25 @@ func (pr *Prover) dischargeAll(jobs []func() *Verdict) []*Verdict {
 	}
 	wg.Wait()
 	return out
+}
+
+// scopedVisible: a scoped fact is visible to an obligation iff the obligation serves one of the fact's properties and, when
+// the fact names groups (grp=<name>: a finer partition inside one property), belongs to one of them.
+func scopedVisible(o *Oblig, tags []string) bool {
+	shared, hasGrp, grpShared := false, false, false
+	for _, t := range tags {
+		if strings.HasPrefix(t, "grp=") {
+			hasGrp = true
+			for _, q := range o.Props {
+				if q == t {
+					grpShared = true
+				}
+			}
+			continue
+		}
+		if !pseudoTag[t] && hasProp(o.Props, t) {
+			shared = true
+		}
+	}
+	return shared && (!hasGrp || grpShared)
 }
